@@ -761,6 +761,7 @@ func (x *Exec) loopHeader(st *State, fr *Frame, h *ssa.BasicBlock, ord int, phis
 		kindPrefix = fmt.Sprintf("%s.loop%d", fname, ord)
 	}
 	sc := x.specCtxFor(st, fr, fr.pre)
+	sc.preferEnv = true
 	if fr.loopSeen[h] {
 		// back edge: invariant must be re-established; path ends
 		if spec != nil {
@@ -769,6 +770,7 @@ func (x *Exec) loopHeader(st *State, fr *Frame, h *ssa.BasicBlock, ord int, phis
 			}
 			if len(spec.IterEnsures) > 0 {
 				isc := x.specCtxFor(st, fr, fr.pre)
+				isc.preferEnv = true
 				isc.evFrom = fr.loopEv[h]
 				isc.head = fr.loopSnap[h]
 				for i, ie := range spec.IterEnsures {
@@ -812,6 +814,7 @@ func (x *Exec) loopHeader(st *State, fr *Frame, h *ssa.BasicBlock, ord int, phis
 	}
 	if spec != nil {
 		sc2 := x.specCtxFor(st, fr, fr.pre)
+		sc2.preferEnv = true
 		for _, inv := range spec.Invariants {
 			st.assume(x.evalBool(sc2, inv.Expr))
 		}
@@ -1919,7 +1922,10 @@ func (x *Exec) convert(st *State, v Value, to types.Type) Value {
 func (x *Exec) evalObserve(sc *specCtx, ob Clause) {
 	defer func() {
 		if r := recover(); r != nil {
-			if _, ok := r.(engineError); ok {
+			if ee, ok := r.(engineError); ok {
+				if os.Getenv("GOVC_DEBUG") != "" {
+					fmt.Fprintf(os.Stderr, "observe %s: %s\n", ob.Label, ee.msg)
+				}
 				return // not available on this path
 			}
 			panic(r)
